@@ -183,7 +183,10 @@ func realStub() map[string]any {
 			"gontainer-helpers runtime module (rewritten only at map ranges)", "yaml.v3", "cobra/pflag", "text/template", "go/format", "x/tools/imports", "gonum graph", "fatih/color"},
 		"simulated": []string{"order of every map iteration in /repo and gontainer-helpers code (seeded per site and call)", "directory-listing / glob result order (seeded permutation)",
 			"file-system fault layer over a private tmpfs directory: error returns, short reads, torn writes, failed close/rename/create-temp, corrupted read content at exact operation indices",
-			"process environment, working directory, build version, clock, random source, pid, hostname (all set from the seed per run)", "process exit (os.Exit unwinds to the harness)", "stdout/stderr (captured)"},
+			"process environment, working directory, build version, clock, random source, pid, hostname (all set from the seed per run)", "process exit (os.Exit unwinds to the harness)", "stdout/stderr (captured)",
+			"time: one simulated clock per run; in latency runs a drawn quarter of the file operations takes 0.5-5 s of simulated time; the process's time zone follows the run's $TZ",
+			"input file metadata (modification times incl. future ones, permission bits, creation order) and symbolic links in place of input files",
+			"concurrent processes: two or three build commands over one directory tree, each a real process running the instrumented tool, parked before every file operation and released one at a time by a coordinator whose choices come from the seed (uniform, short bursts, long bursts)"},
 		"not_controlled": []string{"map iteration inside third-party dependencies (yaml, gonum, x/tools, text/template): detected by the same-seed determinism self-test rather than controlled",
 			"terminal colour decision of fatih/color (harness has no tty: colour is always off)"},
 	}
